@@ -8,6 +8,13 @@ N1  local alias of a private container attribute
     Restricted to attributes whose name starts with "_" on a bare name (self / a parameter): these are plain instance attributes in this package
     (properties are public names), so re-evaluating the attribute has no effect.
 
+    N1' the attribute may be rebound in the function when the function is loop-free and every use of c textually precedes the first rebinding.
+
+N7  boolean flag consumed by the next statement
+        ok = a is not None and not b          (only names, attributes, comparisons, boolean operators, isinstance/len)
+        if ok: ...                            ok read nowhere else
+    ==> if a is not None and not b: ...
+
 N2  dict.update with keywords / a literal dict on such an attribute, as a statement
         self._cache.update(a=x, b=y)      /     self._cache.update({"a": x, "b": y})
     ==> self._cache["a"] = x; self._cache["b"] = y      (same order; dict.update assigns the keys one after another)
@@ -164,9 +171,73 @@ def _aliases(fnode):
         if obj not in params or obj in sc.bind or obj in sc.bad:
             continue
         if (obj, v.attr) in sc.attr_stores:
-            continue
+            # still the same object at every use when, in loop-free code, every use comes before the first rebinding of the attribute
+            if _has_loop(fnode):
+                continue
+            stores = [x.lineno for x in ast.walk(fnode) if isinstance(x, ast.Attribute) and isinstance(x.ctx, (ast.Store, ast.Del)) and x.attr == v.attr and isinstance(x.value, ast.Name) and x.value.id == obj]
+            uses = [x.lineno for x in ast.walk(fnode) if isinstance(x, ast.Name) and x.id == name and isinstance(x.ctx, ast.Load)]
+            if not stores or not uses or max(uses) >= min(stores):
+                continue
         out[name] = v
     return out
+
+
+def _has_loop(fnode):
+    return any(isinstance(x, (ast.For, ast.AsyncFor, ast.While, ast.ListComp, ast.SetComp, ast.DictComp, ast.GeneratorExp)) for x in ast.walk(fnode))
+
+
+def _inline_flags(fn):
+    """N7:  flag = <boolean expression>   immediately followed by   if <test using flag>:   where flag is read nowhere else in the function
+    ==> the test with flag replaced by the expression; the assignment is dropped.  The expression may only consist of names, attributes, constants,
+    comparisons, boolean operators, `not`, subscripts and isinstance()/len() calls (evaluating it one statement later gives the same value)."""
+    done = 0
+
+    def pure(e):
+        for x in ast.walk(e):
+            if isinstance(x, ast.Call):
+                if not (isinstance(x.func, ast.Name) and x.func.id in ("isinstance", "len", "hasattr")):
+                    return False
+            elif not isinstance(x, (ast.Name, ast.Attribute, ast.Constant, ast.Compare, ast.BoolOp, ast.UnaryOp, ast.Subscript, ast.Tuple, ast.Load, ast.And, ast.Or, ast.Not,
+                                    ast.cmpop, ast.operator, ast.unaryop, ast.expr_context, ast.Slice)):
+                return False
+        return True
+    loads = {}
+    for x in ast.walk(fn):
+        if isinstance(x, ast.Name) and isinstance(x.ctx, ast.Load):
+            loads[x.id] = loads.get(x.id, 0) + 1
+    stores = {}
+    for x in ast.walk(fn):
+        if isinstance(x, ast.Name) and isinstance(x.ctx, (ast.Store, ast.Del)):
+            stores[x.id] = stores.get(x.id, 0) + 1
+
+    def lists(node):
+        for fld in ("body", "orelse", "finalbody"):
+            v = getattr(node, fld, None)
+            if isinstance(v, list) and v and isinstance(v[0], ast.stmt):
+                yield v
+        for h in getattr(node, "handlers", []) or []:
+            yield h.body
+    work = [fn]
+    while work:
+        node = work.pop()
+        for lst in lists(node):
+            i = 0
+            while i < len(lst) - 1:
+                a, b = lst[i], lst[i + 1]
+                if (isinstance(a, ast.Assign) and len(a.targets) == 1 and isinstance(a.targets[0], ast.Name) and isinstance(b, ast.If)
+                        and isinstance(a.value, (ast.BoolOp, ast.Compare, ast.UnaryOp)) and pure(a.value)):
+                    nm = a.targets[0].id
+                    in_test = sum(1 for x in ast.walk(b.test) if isinstance(x, ast.Name) and x.id == nm)
+                    if in_test == 1 and loads.get(nm) == 1 and stores.get(nm) == 1:
+                        b.test = _ConstSubst({nm: a.value}).visit(b.test)
+                        del lst[i]
+                        done += 1
+                        continue
+                i += 1
+            for st in lst:
+                if not isinstance(st, (ast.FunctionDef, ast.AsyncFunctionDef, ast.ClassDef)):
+                    work.append(st)
+    return done
 
 
 class _Subst(ast.NodeTransformer):
@@ -723,6 +794,9 @@ def normalise(tree):
         u = _Unroll(tables, fn)
         u.generic_visit(fn)
         n_unrolled += u.count
+    n_flags = 0
+    for fn in [n for n in ast.walk(tree) if isinstance(n, (ast.FunctionDef, ast.AsyncFunctionDef))]:
+        n_flags += _inline_flags(fn)
     for fn in [n for n in ast.walk(tree) if isinstance(n, (ast.FunctionDef, ast.AsyncFunctionDef))]:
         al = _aliases(fn)
         if al:
@@ -733,4 +807,4 @@ def normalise(tree):
     _Updates().visit(tree)
     n_upd = sum(1 for n in ast.walk(tree) if isinstance(n, ast.Assign)) - before
     ast.fix_missing_locations(tree)
-    return tree, {"aliases_inlined": n_alias, "update_keys_split": n_upd, "table_loops_unrolled": n_unrolled, "wrappers_inlined": n_inlined, "expression_helpers_inlined": n_expr, "noreturn_helpers_inlined": n_noret}
+    return tree, {"aliases_inlined": n_alias, "update_keys_split": n_upd, "table_loops_unrolled": n_unrolled, "wrappers_inlined": n_inlined, "expression_helpers_inlined": n_expr, "noreturn_helpers_inlined": n_noret, "flags_inlined": n_flags}
